@@ -82,15 +82,18 @@ def fromSpherical (cost phi : α) : Vec3 α :=
 /-- `detail::RealVecTraits<double>::min_accurate_sintheta()` -/
 def minAccurateSintheta : α := 0.005
 
-/-- the (sinθ, cosφ, sinφ) that `rotate` derives from `rot` (three branches) -/
+/-- the (sinθ, cosφ, sinφ) that `rotate` derives from `rot` (three branches; the near-axis
+    branch normalises x and y by rho = sqrt(x² + y²), keeping the sign of y, and falls back to
+    φ = 0 when rho = 0) -/
 def rotAngles (rot : Vec3 α) : α × α × α :=
   let sint := Num.sqrt ((1 : α) - Num.sq rot.z)
   if Num.ge sint (minAccurateSintheta : α) then
     let inv := (1 : α) / sint
     (sint, rot.x * inv, rot.y * inv)
   else if Num.gt sint (0 : α) then
-    let c := rot.x / Num.sqrt (Num.sq rot.x + Num.sq rot.y)
-    (sint, c, Num.sqrt ((1 : α) - Num.sq c))
+    let rho := Num.sqrt (Num.sq rot.x + Num.sq rot.y)
+    if Num.gt rho (0 : α) then (sint, rot.x / rho, rot.y / rho)
+    else (sint, 1, 0)
   else
     (sint, 1, 0)
 
